@@ -13,6 +13,7 @@ package c02
 
 import (
 	"bytes"
+	"compress/gzip"
 	"fmt"
 	"io"
 	"os"
@@ -25,6 +26,7 @@ import (
 	"testing"
 	"time"
 
+	"github.com/DataDog/zstd"
 	"github.com/mimecast/dtail/verif/lib"
 	"pgregory.net/rapid"
 )
@@ -49,7 +51,8 @@ func TestMain(m *testing.M) {
 
 type fileSpec struct {
 	Lines int
-	LenK  int // index into lenClasses
+	LenK  int    // index into lenClasses
+	Comp  string // "" | .gz | .zst : the file is stored compressed (the server decompresses by suffix)
 }
 
 // Stall pauses the consumer for Ms once At bytes were consumed (At < 0: that many bytes before the expected end).
@@ -76,6 +79,9 @@ type e2eCase struct {
 	Clean  bool     // take the known multi-command defect away by a hook await action
 	Sched  []string // hook-placed delays
 	Before int      // grep context (0 = none)
+	// NoFinalNL: the (single) file's last line has no terminator (single-file sessions only: with several
+	// sources an unterminated line legitimately runs into the next source's output)
+	NoFinalNL bool
 }
 
 var lenClasses = []int{12, 60, 200, 1500}
@@ -106,7 +112,8 @@ func genPace(t *rapid.T, total int) pace {
 			var s Stall
 			if rapid.Bool().Draw(t, "near-end") {
 				// within the last few queue-loads of the stream
-				s.At = -rapid.SampledFrom([]int{0, 1, 100, 3000, 20000, 60000}).Draw(t, "before-end")
+				// (over SSH about 2 MiB are in flight between server and consumer)
+				s.At = -rapid.SampledFrom([]int{0, 1, 100, 3000, 20000, 60000, 300000, 1000000, 2300000, 3000000}).Draw(t, "before-end")
 			} else if total > 0 {
 				s.At = rapid.IntRange(0, total).Draw(t, "at")
 			}
@@ -128,8 +135,9 @@ func genE2E(t *rapid.T) e2eCase {
 	}
 	total := 0
 	for i := 0; i < nf; i++ {
-		f := fileSpec{Lines: rapid.SampledFrom(lineCounts).Draw(t, "lines"), LenK: rapid.IntRange(0, len(lenClasses)-1).Draw(t, "lenk")}
-		if total+f.Lines*lenClasses[f.LenK] > 3000000 {
+		f := fileSpec{Lines: rapid.SampledFrom(lineCounts).Draw(t, "lines"), LenK: rapid.IntRange(0, len(lenClasses)-1).Draw(t, "lenk"),
+			Comp: rapid.SampledFrom([]string{"", "", "", ".gz", ".zst"}).Draw(t, "comp")}
+		if total+f.Lines*lenClasses[f.LenK] > 8000000 {
 			f.Lines = 100
 			f.LenK = 0
 		}
@@ -138,6 +146,9 @@ func genE2E(t *rapid.T) e2eCase {
 	}
 	c.Cats = rapid.SampledFrom([]int{1, 2, 2, 5}).Draw(t, "cats")
 	c.Pace = genPace(t, total)
+	if nf == 1 && c.Shape != "repeat" && c.Files[0].Lines > 0 && rapid.IntRange(0, 2).Draw(t, "nofinalnl") == 0 {
+		c.NoFinalNL = true
+	}
 	c.Clean = rapid.IntRange(0, 3).Draw(t, "clean") > 0
 	np := rapid.IntRange(0, 2).Draw(t, "nperturb")
 	for i := 0; i < np; i++ {
@@ -294,15 +305,29 @@ func runE2E(c e2eCase, firstLook bool) (o lib.Outcome, timedOut bool) {
 			b.Write(lineOf(f, spec, n))
 			b.WriteByte('\n')
 		}
-		p := filepath.Join(data, fmt.Sprintf("f%02d.log", f))
-		os.WriteFile(p, b.Bytes(), 0o644)
+		content := b.Bytes()
+		if c.NoFinalNL && len(content) > 0 {
+			content = content[:len(content)-1]
+		}
+		switch spec.Comp {
+		case ".gz":
+			var z bytes.Buffer
+			w := gzip.NewWriter(&z)
+			w.Write(content)
+			w.Close()
+			content = z.Bytes()
+		case ".zst":
+			content, _ = zstd.Compress(nil, content)
+		}
+		p := filepath.Join(data, fmt.Sprintf("f%02d.log%s", f, spec.Comp))
+		os.WriteFile(p, content, 0o644)
 		paths = append(paths, p)
 	}
 	reps := 1
 	var what string
 	switch c.Shape {
 	case "glob":
-		what = filepath.Join(data, "*.log")
+		what = filepath.Join(data, "*.log*")
 	case "list":
 		what = strings.Join(paths, ",")
 	default:
@@ -394,6 +419,15 @@ func runE2E(c e2eCase, firstLook bool) (o lib.Outcome, timedOut bool) {
 
 	// classes
 	o.Classes = []string{"pace=" + c.Pace.Kind, "shape=" + c.Shape, fmt.Sprintf("cats=%d", c.Cats)}
+	for _, spec := range c.Files {
+		if spec.Comp != "" {
+			o.Classes = append(o.Classes, "compressed-file")
+			break
+		}
+	}
+	if c.NoFinalNL {
+		o.Classes = append(o.Classes, "unterminated-last-line")
+	}
 	if c.SSH {
 		o.Classes = append(o.Classes, "ssh")
 	} else {
@@ -451,6 +485,17 @@ func runE2E(c e2eCase, firstLook bool) (o lib.Outcome, timedOut bool) {
 	// ---- oracle: project stdout onto the tagged lines
 	seen := map[int][]int{}
 	stdout := out.Bytes()
+	lastSelected := false
+	if c.NoFinalNL {
+		sel := selected(c, c.Files[0])
+		lastSelected = len(sel) > 0 && sel[len(sel)-1] == c.Files[0].Lines
+	}
+	if lastSelected {
+		if len(stdout) > 0 && stdout[len(stdout)-1] == '\n' {
+			return fail("the file's last line has no terminator but the output ends with a newline", nil, tailS(string(stdout), 200))
+		}
+		stdout = append(append([]byte(nil), stdout...), '\n')
+	}
 	if len(stdout) > 0 && stdout[len(stdout)-1] != '\n' {
 		return fail("output does not end with a newline (torn last line)", nil, tailS(string(stdout), 300))
 	}
@@ -559,7 +604,7 @@ func tailS(s string, n int) string {
 	return s
 }
 
-const e2eRule = "real dcat / dgrep --plain (even-numbered lines, optionally --before), serverless or against a freshly started server process; 1..12 files with line counts around the queue capacities {0,1,2,99,100,101,199,200,201,1000,5000} and 12..1500-byte tagged lines; one glob, one command per file, or the same file twice; MaxConcurrentCats in {1,2,5}; consumer pacing: fast / uniformly slow / 1-3 stalls of 50 ms..5.6 s at a fraction of the stream or 0..60000 bytes before its end, 64 B..64 KiB reads, 4 KiB or 64 KiB pipe; 0-2 hook-placed delays at the shutdown handshake, command loop and limiter. Oracle: per file the delivered tagged lines are exactly the selected lines, once, in order (two complete copies for a file requested twice); any other stdout line is a CLIENT|/SERVER| record; exit 0; the session ends within 60 s + 2 x pauses (a miss is re-examined with a fast consumer before it is reported). Multi-command sessions: in the clean space a hook await removes the known defect (server cannot know that more commands follow); in the free space a failure needs that defect's trace signature. Non-trivial = >=2 commands, or more files than limiter slots, or a paced consumer with > 200 selected lines"
+const e2eRule = "real dcat / dgrep --plain (even-numbered lines, optionally --before), serverless or against a freshly started server process; 1..12 files with line counts around the queue capacities {0,1,2,99,100,101,199,200,201,1000,5000} and 12..1500-byte tagged lines, stored plain, gzip or zstd, a single file optionally without final newline; one glob, one command per file, or the same file twice; MaxConcurrentCats in {1,2,5}; consumer pacing: fast / uniformly slow / 1-3 stalls of 50 ms..5.6 s at a fraction of the stream or 0..3000000 bytes before its end, 64 B..64 KiB reads, 4 KiB or 64 KiB pipe; 0-2 hook-placed delays at the shutdown handshake, command loop and limiter. Oracle: per file the delivered tagged lines are exactly the selected lines, once, in order (two complete copies for a file requested twice); any other stdout line is a CLIENT|/SERVER| record; exit 0; the session ends within 60 s + 2 x pauses (a miss is re-examined with a fast consumer before it is reported). Multi-command sessions: in the clean space a hook await removes the known defect (server cannot know that more commands follow); in the free space a failure needs that defect's trace signature. Non-trivial = >=2 commands, or more files than limiter slots, or a paced consumer with > 200 selected lines"
 
 func TestC02E2E(t *testing.T) {
 	lib.Run(t, lib.Spec[e2eCase]{Prop: "C02", Check: "e2e", Rule: e2eRule, Gen: genE2E, Eval: evalE2E})
@@ -605,6 +650,9 @@ func genH(t *rapid.T) hCase {
 	np := rapid.IntRange(0, 3).Draw(t, "npauses")
 	for i := 0; i < np; i++ {
 		p := hPause{Ms: rapid.SampledFrom([]int{20, 60, 120, 200, 400, 1100}).Draw(t, "ms")}
+		if rapid.Bool().Draw(t, "l1") && rapid.Bool().Draw(t, "l2") && rapid.Bool().Draw(t, "l3") && rapid.Bool().Draw(t, "l4") {
+			p.Ms = 5600 // longer than the 5 s the server waits for the close acknowledgement
+		}
 		if rapid.Bool().Draw(t, "near-end") {
 			p.AtMsg = -rapid.SampledFrom([]int{0, 1, 2, 50, 99, 100, 101, 150, 200, 201}).Draw(t, "before-end")
 		} else {
@@ -739,6 +787,6 @@ type hResult struct {
 
 func TestC02Handler(t *testing.T) {
 	lib.Run(t, lib.Spec[hCase]{Prop: "C02", Check: "handler",
-		Rule: "real server handler in-process, the harness writes the commands (one glob / one per file / the same file twice, with a generated gap between commands) and reads the output with 16 B..32 KiB buffers, pausing 20 ms..1.1 s before a generated message number or 0..201 messages before the expected end; 1..6 files with line counts around the queue capacities {0,1,2,50,99,100,101,150,199,200,201,202,250,400}; MaxConcurrentCats in {1,2,5}; 0-2 hook-placed delays (shutdown handshake, command accounting, limiter, the n-th line taken from the queue). The harness behaves like the client: it stops taking lines when '.syn close connection' arrives and acknowledges it. Oracle: the lines that arrived before the close handshake are exactly the selected lines per file, once, in order; the handshake is offered and the session ends within 10 s of the acknowledgement. Clean / free schedule space as in the e2e layer. Non-trivial = >=2 commands, more files than limiter slots, or a paced consumer with > 200 selected lines",
+		Rule: "real server handler in-process, the harness writes the commands (one glob / one per file / the same file twice, with a generated gap between commands) and reads the output with 16 B..32 KiB buffers, pausing 20 ms..1.1 s (rarely 5.6 s) before a generated message number or 0..201 messages before the expected end; 1..6 files with line counts around the queue capacities {0,1,2,50,99,100,101,150,199,200,201,202,250,400}; MaxConcurrentCats in {1,2,5}; 0-2 hook-placed delays (shutdown handshake, command accounting, limiter, the n-th line taken from the queue). The harness behaves like the client: it stops taking lines when '.syn close connection' arrives and acknowledges it. Oracle: the lines that arrived before the close handshake are exactly the selected lines per file, once, in order; the handshake is offered and the session ends within 10 s of the acknowledgement. Clean / free schedule space as in the e2e layer. Non-trivial = >=2 commands, more files than limiter slots, or a paced consumer with > 200 selected lines",
 		Gen: genH, Eval: evalH})
 }
